@@ -25,6 +25,8 @@ impl Vm {
       ExecutionSignal::Ok => self.execute(mode),
       ExecutionSignal::OkReturn => ExecutionResult::Ok(self.fiber.pop()),
       ExecutionSignal::RuntimeError => ExecutionResult::RuntimeError,
+      // the callable is a native that ends the program, exit handed to each for one
+      ExecutionSignal::Exit => ExecutionResult::Exit(self.exit_code),
       _ => self.internal_error("Unexpected signal in run_fun."),
     };
 
@@ -55,6 +57,7 @@ impl Vm {
       ExecutionSignal::Ok => self.execute(mode),
       ExecutionSignal::OkReturn => ExecutionResult::Ok(self.fiber.pop()),
       ExecutionSignal::RuntimeError => ExecutionResult::RuntimeError,
+      ExecutionSignal::Exit => ExecutionResult::Exit(self.exit_code),
       _ => self.internal_error("Unexpected signal in run_method."),
     };
 
